@@ -1,5 +1,5 @@
 (* Proofs/WireState.v : theorems about Model/WireState.v (C14, state-network types and the ztyp beacon key). *)
-From Shisui Require Import Base.Bytes Base.Ssz Model.Wire Model.WireState Proofs.Ssz Proofs.Wire.
+From Shisui Require Import Base.Bytes Base.Arith Base.Ssz Model.Wire Model.WireState Proofs.Ssz Proofs.Ztyp Proofs.Wire.
 From Coq Require Import ZifyBool ZifyN ZifyNat.
 Ltac Zify.zify_post_hook ::= Z.div_mod_to_equations.
 Local Arguments N.add : simpl never.
@@ -10,6 +10,12 @@ Local Arguments N.leb : simpl never.
 Local Arguments N.eqb : simpl never.
 Local Arguments N.of_nat : simpl never.
 Local Arguments N.to_nat : simpl never.
+Local Arguments N.modulo : simpl never.
+Local Arguments N.div : simpl never.
+Local Arguments N.lor : simpl never.
+Local Arguments N.land : simpl never.
+Local Arguments N.shiftr : simpl never.
+Local Arguments N.shiftl : simpl never.
 
 (* ================================================================== fixed-size ztyp content keys *)
 Lemma dec_HistSummariesKey_spec s data :
@@ -124,3 +130,820 @@ Lemma dec_HistSummariesKey_total s b : dec_HistSummariesKey s b <> Panic.
 Proof. rewrite dec_HistSummariesKey_spec. np. Qed.
 Lemma dec_BytecodeKey_total s b : dec_BytecodeKey s b <> Panic.
 Proof. rewrite dec_BytecodeKey_spec. np. Qed.
+
+(* ================================================================== Nibbles *)
+Definition nib (x : byte) : Prop := b2n x < 16.
+
+Lemma shiftr4 v : N.shiftr v 4 = v / 16.
+Proof. now rewrite N.shiftr_div_pow2. Qed.
+Lemma land15 v : N.land v 15 = v mod 16.
+Proof. change 15 with (N.ones 4). now rewrite N.land_ones. Qed.
+
+Lemma pack_val a b : nib a -> nib b -> b2n (pack_pair a b) = b2n a * 16 + b2n b.
+Proof.
+  unfold nib, pack_pair. intros Ha Hb. rewrite (N.mod_small (b2n a * 16)) by lia.
+  rewrite N.lor_comm. replace (b2n a * 16) with (N.shiftl (b2n a) 4) by (rewrite N.shiftl_mul_pow2; reflexivity).
+  rewrite lor_add_shiftl by (simpl; lia). rewrite N.shiftl_mul_pow2. change (2 ^ 4) with 16. rewrite b2n_n2b_small by lia. lia.
+Qed.
+Lemma unpack_pack a b : nib a -> nib b -> unpack_pairs [pack_pair a b] = [a; b].
+Proof.
+  intros Ha Hb. cbn [unpack_pairs flat_map app]. rewrite shiftr4, land15, (pack_val a b Ha Hb). unfold nib in *.
+  replace ((b2n a * 16 + b2n b) / 16) with (b2n a) by lia. replace ((b2n a * 16 + b2n b) mod 16) with (b2n b) by lia.
+  now rewrite !n2b_b2n.
+Qed.
+Lemma unpack_nib x : nib (n2b (N.shiftr (b2n x) 4)) /\ nib (n2b (N.land (b2n x) 15)).
+Proof.
+  unfold nib. pose proof (b2n_lt x). rewrite shiftr4, land15. rewrite !b2n_n2b_small by lia. lia.
+Qed.
+Lemma pack_unpack x : pack_pair (n2b (N.shiftr (b2n x) 4)) (n2b (N.land (b2n x) 15)) = x.
+Proof.
+  destruct (unpack_nib x) as [H1 H2]. apply b2n_inj. rewrite (pack_val _ _ H1 H2). pose proof (b2n_lt x).
+  rewrite shiftr4, land15, !b2n_n2b_small by lia. lia.
+Qed.
+
+Lemma unpack_pairs_cons x l : unpack_pairs (x :: l) = n2b (N.shiftr (b2n x) 4) :: n2b (N.land (b2n x) 15) :: unpack_pairs l.
+Proof. reflexivity. Qed.
+Lemma unpack_pairs_nib l : Forall nib (unpack_pairs l).
+Proof. induction l as [|x l IH]; [constructor|]. rewrite unpack_pairs_cons. destruct (unpack_nib x). repeat constructor; assumption. Qed.
+Lemma unpack_pairs_len l : length (unpack_pairs l) = (2 * length l)%nat.
+Proof. induction l as [|x l IH]; [reflexivity|]. rewrite unpack_pairs_cons. simpl length. lia. Qed.
+Lemma pack_unpack_pairs l : pack_pairs (unpack_pairs l) = Ok l.
+Proof. induction l as [|x l IH]; [reflexivity|]. rewrite unpack_pairs_cons. cbn [pack_pairs]. rewrite IH. cbn [bind]. now rewrite pack_unpack. Qed.
+
+Lemma pack_pairs_inv : forall k l p, (length l <= k)%nat -> Forall nib l -> pack_pairs l = Ok p -> unpack_pairs p = l /\ length l = (2 * length p)%nat.
+Proof.
+  induction k as [|k IH]; intros l p Hk Hn H.
+  - destruct l; [|simpl in Hk; lia]. cbn in H. apply Ok_inj in H. subst. split; reflexivity.
+  - destruct l as [|a [|b l]]; cbn [pack_pairs] in H.
+    + apply Ok_inj in H. subst. split; reflexivity.
+    + discriminate.
+    + destruct (pack_pairs l) as [t| |] eqn:Et; cbn [bind] in H; try discriminate. apply Ok_inj in H. subst p.
+      pose proof (Forall_inv Hn) as Ha. pose proof (Forall_inv (Forall_inv_tail Hn)) as Hb.
+      destruct (IH l t ltac:(simpl in Hk; lia) (Forall_inv_tail (Forall_inv_tail Hn)) Et) as [I1 I2].
+      split; [|simpl; lia]. change (pack_pair a b :: t) with ([pack_pair a b] ++ t).
+      unfold unpack_pairs. rewrite flat_map_app. fold (unpack_pairs [pack_pair a b]). fold (unpack_pairs t).
+      rewrite (unpack_pack a b Ha Hb), I1. reflexivity.
+Qed.
+Lemma pack_pairs_even : forall k l, (length l <= k)%nat -> Nat.even (length l) = true -> exists p, pack_pairs l = Ok p.
+Proof.
+  induction k as [|k IH]; intros l Hk He.
+  - destruct l; [eexists; reflexivity|simpl in Hk; lia].
+  - destruct l as [|a [|b l]]; [eexists; reflexivity|discriminate He|].
+    cbn [pack_pairs]. destruct (IH l ltac:(simpl in Hk; lia) He) as [p Hp]. rewrite Hp. eexists; reflexivity.
+Qed.
+
+Lemma lor16 F : F < 16 -> N.lor 16 F = 16 + F.
+Proof.
+  intros H. rewrite N.lor_comm. replace 16 with (N.shiftl 1 4) at 1 by reflexivity.
+  rewrite lor_add_shiftl by (change (2 ^ 4) with 16; lia). change (2 ^ 4) with 16. lia.
+Qed.
+
+Definition nib_head (fb : byte) : res bytes :=
+  let flag := N.shiftr (b2n fb) 4 in let first := N.land (b2n fb) 15 in
+  if flag =? 0 then (if first =? 0 then Ok [] else Err E_SELECTOR)
+  else if flag =? 1 then Ok [n2b first] else Err E_SELECTOR.
+
+Lemma cd_nibbles s : cd_of z_nibbles s =
+  match s with
+  | [] => Err E_SCOPE
+  | fb :: packed => bind (nib_head fb) (fun h =>
+      if L_Nibbles <? nlen (h ++ unpack_pairs packed) then Err E_LISTBIG else Ok (FB (h ++ unpack_pairs packed)))
+  end.
+Proof.
+  unfold cd_of. cbn [z_de z_nibbles]. destruct s as [|fb packed].
+  - reflexivity.
+  - rewrite rd_read_fwd by (cbn [rd_i rd_max rd_inp]; rewrite ?nlen_cons; lia). cbn [bind rd_inp rd_i rd_max].
+    change (N.to_nat 1) with 1%nat. cbn [firstn skipn]. unfold rd_scope. cbn [rd_max rd_i].
+    rewrite rd_read_fwd by (cbn [rd_i rd_max rd_inp]; rewrite ?nlen_cons; lia). cbn [bind rd_inp].
+    replace (N.to_nat (nlen (fb :: packed) - (0 + 1))) with (length packed) by (rewrite nlen_cons; unfold nlen; lia).
+    rewrite firstn_all. unfold nib_head.
+    destruct (N.shiftr (b2n fb) 4 =? 0); [destruct (N.land (b2n fb) 15 =? 0); cbn [bind]; [|reflexivity]|
+      destruct (N.shiftr (b2n fb) 4 =? 1); cbn [bind]; [|reflexivity]];
+    destruct (L_Nibbles <? _); reflexivity.
+Qed.
+
+Lemma exact_nibbles : exact z_nibbles.
+Proof.
+  intros s c v sub' Hl _ H. cbn [z_de z_nibbles] in H.
+  destruct (rd_read _ 1) as [[fb r1]| |] eqn:E1; cbn [bind] in H; try discriminate.
+  destruct (rd_read r1 (rd_scope r1)) as [[packed r2]| |] eqn:E2; cbn [bind] in H; try discriminate.
+  apply rd_read_inv in E1 as (A1 & A2 & A3 & A4 & A5 & _). apply rd_read_inv in E2 as (B1 & B2 & B3 & B4 & B5 & _).
+  cbn [rd_inp rd_i rd_max] in *. unfold rd_scope in *. rewrite A4, A5 in *.
+  assert (Hr2 : rd_inp r2 = [] /\ nlen s = c).
+  { rewrite A3, nlen_skipn in B1. split; [|lia]. rewrite B3, A3. apply skipn_all2. rewrite skipn_length. unfold nlen in *. lia. }
+  destruct Hr2 as [Hr2 Hn].
+  destruct fb as [|x [|? ?]]; try discriminate.
+  destruct (N.shiftr (b2n x) 4 =? 0); [destruct (N.land (b2n x) 15 =? 0); cbn [bind] in H; [|discriminate]|
+    destruct (N.shiftr (b2n x) 4 =? 1); cbn [bind] in H; [|discriminate]];
+  (destruct (L_Nibbles <? _); [discriminate|]; apply Ok_inj in H; injection H as _ <-; split; assumption).
+Qed.
+
+Lemma total_nibbles : total z_nibbles.
+Proof.
+  intros r. cbn [z_de z_nibbles].
+  destruct (rd_read r 1) as [[fb r1]| |] eqn:E1; cbn [bind]; try discriminate; [|now apply rd_read_total in E1].
+  destruct (rd_read r1 (rd_scope r1)) as [[packed r2]| |] eqn:E2; cbn [bind]; try discriminate; [|now apply rd_read_total in E2].
+  apply rd_read_inv in E1 as (A1 & A2 & _). change (N.to_nat 1) with 1%nat in A2.
+  destruct (rd_inp r) as [|x inp]; [unfold nlen in A1; simpl in A1; lia|]. cbn [firstn] in A2. subst fb.
+  destruct (N.shiftr (b2n x) 4 =? 0); [destruct (N.land (b2n x) 15 =? 0); cbn [bind]; [|discriminate]|
+    destruct (N.shiftr (b2n x) 4 =? 1); cbn [bind]; [|discriminate]]; destruct (L_Nibbles <? _); discriminate.
+Qed.
+
+Definition Nibbles_ok (n : bytes) : Prop := Forall nib n /\ nlen n <= L_Nibbles.
+
+Lemma byte_split x : b2n x = N.shiftr (b2n x) 4 * 16 + N.land (b2n x) 15.
+Proof. rewrite shiftr4, land15. pose proof (N.div_mod (b2n x) 16). lia. Qed.
+
+Lemma ser_Nibbles_dec n s : Forall nib n -> ser_Nibbles n = Ok s ->
+  exists fb packed, s = fb :: packed /\ exists h, nib_head fb = Ok h /\ h ++ unpack_pairs packed = n.
+Proof.
+  intros Hn. unfold ser_Nibbles. destruct (Nat.even (length n)) eqn:Ev.
+  - destruct (pack_pairs n) as [p| |] eqn:Ep; cbn [bind]; try discriminate. intros H; apply Ok_inj in H. subst s.
+    exists x00, p. split; [reflexivity|]. exists []. split; [reflexivity|]. cbn [app].
+    exact (proj1 (pack_pairs_inv _ _ _ (le_n _) Hn Ep)).
+  - destruct n as [|f rest]; [discriminate|].
+    destruct (pack_pairs rest) as [p| |] eqn:Ep; cbn [bind]; try discriminate. intros H; apply Ok_inj in H. subst s.
+    pose proof (Forall_inv Hn) as Hf. unfold nib in Hf.
+    exists (n2b (N.lor 16 (b2n f))), p. split; [reflexivity|]. exists [f]. split.
+    + unfold nib_head. assert (Hv : b2n (n2b (N.lor 16 (b2n f))) = 16 + b2n f).
+      { rewrite lor16 by exact Hf. rewrite b2n_n2b_small; lia. }
+      rewrite Hv, shiftr4, land15. replace ((16 + b2n f) / 16) with 1 by lia. replace ((16 + b2n f) mod 16) with (b2n f) by lia.
+      change (1 =? 0) with false. change (1 =? 1) with true. cbv iota. now rewrite n2b_b2n.
+    + cbn [app]. f_equal. exact (proj1 (pack_pairs_inv _ _ _ (le_n _) (Forall_inv_tail Hn) Ep)).
+Qed.
+
+Lemma nib_head_ser fb packed h : nib_head fb = Ok h -> ser_Nibbles (h ++ unpack_pairs packed) = Ok (fb :: packed) /\ Forall nib (h ++ unpack_pairs packed).
+Proof.
+  unfold nib_head. pose proof (byte_split fb) as Hb. pose proof (unpack_pairs_nib packed) as Hu.
+  destruct (N.shiftr (b2n fb) 4 =? 0) eqn:E0.
+  - destruct (N.land (b2n fb) 15 =? 0) eqn:E1; [|discriminate]. intros H; apply Ok_inj in H. subst h. cbn [app].
+    split; [|exact Hu]. unfold ser_Nibbles. rewrite unpack_pairs_len.
+    replace (Nat.even (2 * length packed)) with true by (symmetry; apply Nat.even_spec; exists (length packed); lia).
+    rewrite pack_unpack_pairs. cbn [bind]. f_equal. f_equal. apply b2n_inj. change (b2n x00) with 0. lia.
+  - destruct (N.shiftr (b2n fb) 4 =? 1) eqn:E1; [|discriminate]. intros H; apply Ok_inj in H. subst h.
+    assert (Hf : N.land (b2n fb) 15 < 16) by (rewrite land15; lia).
+    split; [|constructor; [unfold nib; rewrite b2n_n2b_small by lia; exact Hf|exact Hu]].
+    unfold ser_Nibbles. cbn [app length]. rewrite unpack_pairs_len.
+    replace (Nat.even (S (2 * length packed))) with false.
+    2:{ symmetry. rewrite <- Nat.negb_odd. apply negb_false_iff. apply Nat.odd_spec. exists (length packed). lia. }
+    rewrite pack_unpack_pairs. cbn [bind]. f_equal. f_equal. apply b2n_inj.
+    rewrite (b2n_n2b_small (N.land (b2n fb) 15)) by lia. rewrite lor16 by exact Hf. rewrite b2n_n2b_small by lia. lia.
+Qed.
+
+Lemma cd_nibbles_fwd n : Nibbles_ok n -> exists s, ser_Nibbles n = Ok s /\ cd_of z_nibbles s = Ok (FB n).
+Proof.
+  intros [Hn Hl]. assert (exists s, ser_Nibbles n = Ok s) as [s Hs].
+  { unfold ser_Nibbles. destruct (Nat.even (length n)) eqn:Ev.
+    - destruct (pack_pairs_even _ n (le_n _) Ev) as [p Hp]. rewrite Hp. eexists; reflexivity.
+    - destruct n as [|f rest]; [discriminate|]. assert (Er : Nat.even (length rest) = true).
+      { simpl length in Ev. rewrite Nat.even_succ in Ev. rewrite <- Nat.negb_odd. now rewrite Ev. }
+      destruct (pack_pairs_even _ rest (le_n _) Er) as [p Hp]. rewrite Hp. eexists; reflexivity. }
+  exists s. split; [exact Hs|]. destruct (ser_Nibbles_dec n s Hn Hs) as (fb & packed & -> & h & Hh & Hcat).
+  rewrite cd_nibbles, Hh. cbn [bind]. rewrite Hcat. replace (L_Nibbles <? nlen n) with false by lia. reflexivity.
+Qed.
+
+Lemma cd_nibbles_inv s v : cd_of z_nibbles s = Ok v -> exists n, v = FB n /\ ser_Nibbles n = Ok s /\ Nibbles_ok n.
+Proof.
+  rewrite cd_nibbles. destruct s as [|fb packed]; [discriminate|].
+  destruct (nib_head fb) as [h| |] eqn:Eh; cbn [bind]; try discriminate.
+  destruct (L_Nibbles <? nlen (h ++ unpack_pairs packed)) eqn:El; [discriminate|]. intros H; apply Ok_inj in H. subst v.
+  destruct (nib_head_ser fb packed h Eh) as [Hs Hn]. exists (h ++ unpack_pairs packed). repeat split; [exact Hs|exact Hn|lia].
+Qed.
+
+Lemma ser_Nibbles_inj n n' s : Forall nib n -> Forall nib n' -> ser_Nibbles n = Ok s -> ser_Nibbles n' = Ok s -> n = n'.
+Proof.
+  intros Hn Hn' H H'. destruct (ser_Nibbles_dec n s Hn H) as (fb & packed & E & h & Hh & Hc).
+  destruct (ser_Nibbles_dec n' s Hn' H') as (fb' & packed' & E' & h' & Hh' & Hc'). rewrite E in E'. injection E' as <- <-.
+  rewrite Hh in Hh'. apply Ok_inj in Hh'. subst h'. congruence.
+Qed.
+
+(* ================================================================== state-network containers through the generic Container theorems *)
+Lemma z_unmarshal_false de data : z_unmarshal false de data = bind (de (rd_new data)) (fun '(vs, _) => Ok vs).
+Proof. unfold z_unmarshal. destruct (de (rd_new data)) as [[vs r]| |]; reflexivity. Qed.
+
+Lemma fo3_inv1 f c v : fo3 [f] [c] [v] -> cd_of f c = Ok v.
+Proof. intros H. inversion H; subst. assumption. Qed.
+
+(* ---- one ByteList[L] field: TrieNode (1024), ContractBytecodeContainer (32768) *)
+Section OneByteList.
+  Variable L : N.
+  Let fs := [z_bytelist L].
+  Let enc (v : bytes) : res bytes := zs_container [mkzser 0 v].
+  Let dec (data : bytes) : res bytes :=
+    bind (z_unmarshal false (z_container fs) data) (fun vs => match vs with [FB n] => Ok n | _ => Panic end).
+  Let lim (v : bytes) : Prop := nlen v <= L.
+
+  Lemma obl_exact : Forall exact fs. Proof. constructor; [apply exact_bytelist|constructor]. Qed.
+  Lemma obl_dyn : has_dyn fs. Proof. unfold has_dyn, fs. cbn. discriminate. Qed.
+  Lemma obl_enc v : enc v = Ok (u32_enc 4 ++ v).
+  Proof.
+    unfold enc, zs_container, zs_fixedlen, zs_dyn. cbn [fold_left s_fix zs_pass1 filter map concat s_bytes].
+    change (0 =? 0) with true. cbn [negb]. unfold z_write_offset.
+    change ((two32 <=? 0 + 4) || (two32 <=? 0) || (two32 <=? 0 + 4 + 0)) with false. cbv iota. cbn [bind map concat s_bytes].
+    now rewrite !app_nil_r.
+  Qed.
+
+  Lemma obl_dec_inv b v : dec b = Ok v -> lim v /\ enc v = Ok b.
+  Proof.
+    unfold dec. rewrite z_unmarshal_false.
+    destruct (z_container fs (rd_new b)) as [[vs r']| |] eqn:E; cbn [bind]; try discriminate.
+    destruct (container_inv _ _ _ _ obl_exact obl_dyn E) as (cs & Hfo & Hz).
+    destruct vs as [|[?|n|?|?] [|? ?]]; try discriminate. intros H; apply Ok_inj in H. subst n.
+    inversion Hfo as [|f0 fs0 c cs0 v0 vs0 Hcd _ Hrest]; subst. inversion Hrest; subst.
+    rewrite cd_bytelist in Hcd. destruct (L <? nlen c) eqn:El; [discriminate|]. apply Ok_inj in Hcd. injection Hcd as ->.
+    split; [unfold lim; lia|exact Hz].
+  Qed.
+
+  Lemma obl_dec_fwd v : lim v -> dec (u32_enc 4 ++ v) = Ok v.
+  Proof.
+    intros Hl. unfold lim in Hl. assert (Hfo : fo3 fs [v] [FB v]).
+    { constructor; [|intros H; exfalso; apply H; reflexivity|constructor]. rewrite cd_bytelist. now replace (L <? nlen v) with false by lia. }
+    pose proof (obl_enc v) as He. unfold enc in He.
+    destruct (container_fwd fs [v] [FB v] _ obl_exact Hfo He) as (r' & Hc & _).
+    unfold dec. rewrite z_unmarshal_false, Hc. reflexivity.
+  Qed.
+
+  Lemma obl_codec : codec_ok enc dec (fun _ => True) lim.
+  Proof.
+    split; [|split; [|split]].
+    - intros v _ Hl. exists (u32_enc 4 ++ v). split; [apply obl_enc|now apply obl_dec_fwd].
+    - intros v _ Hl. split; [rewrite obl_enc; discriminate|]. intros b Hb v' Hd.
+      apply obl_dec_inv in Hd as [Hl' He']. rewrite obl_enc in Hb, He'. apply Ok_inj in Hb, He'. subst b.
+      apply app_inv_head in He'. subst v'. contradiction.
+    - intros b v H. apply obl_dec_inv in H. split; [exact I|apply H].
+    - intros b v H. apply obl_dec_inv in H. apply H.
+  Qed.
+
+  Lemma obl_total b : dec b <> Panic.
+  Proof.
+    unfold dec. rewrite z_unmarshal_false.
+    destruct (z_container fs (rd_new b)) as [[vs r']| |] eqn:E; cbn [bind]; try discriminate.
+    - destruct (container_inv _ _ _ _ obl_exact obl_dyn E) as (cs & Hfo & _).
+      inversion Hfo as [|f0 fs0 c cs0 v0 vs0 Hcd _ Hrest]; subst. inversion Hrest; subst.
+      rewrite cd_bytelist in Hcd. destruct (L <? nlen c); [discriminate|]. apply Ok_inj in Hcd. subst v0. discriminate.
+    - apply container_total in E; [destruct E|]. constructor; [apply total_bytelist|constructor].
+  Qed.
+End OneByteList.
+
+Definition TrieNode_lim (v : bytes) : Prop := nlen v <= L_TrieNode.
+Lemma TrieNode_codec : codec_ok enc_TrieNode dec_TrieNode (fun _ => True) TrieNode_lim.
+Proof. exact (obl_codec L_TrieNode). Qed.
+Lemma dec_TrieNode_total b : dec_TrieNode b <> Panic.
+Proof. exact (obl_total L_TrieNode b). Qed.
+Definition BytecodeContainer_lim (v : bytes) : Prop := nlen v <= L_Bytecode.
+Lemma BytecodeContainer_codec : codec_ok enc_BytecodeContainer dec_BytecodeContainer (fun _ => True) BytecodeContainer_lim.
+Proof. exact (obl_codec L_Bytecode). Qed.
+Lemma dec_BytecodeContainer_total b : dec_BytecodeContainer b <> Panic.
+Proof. exact (obl_total L_Bytecode b). Qed.
+
+(* ---- a typed view of a ztyp container: the per-type obligations from which the four clauses and totality follow *)
+Section TypedContainer.
+  Context (fs : list zdes) {A : Type} (to_chunks : A -> res (list bytes)) (vals : A -> list field)
+          (of_vals : list field -> res A) (enc : A -> res bytes) (dec : bytes -> res A) (wf lim : A -> Prop).
+  Hypothesis Hex : Forall exact fs.
+  Hypothesis Htot : Forall total fs.
+  Hypothesis Hdyn : has_dyn fs.
+  Hypothesis H_enc : forall v, enc v = bind (to_chunks v) (fun cs => zs_container (sers fs cs)).
+  Hypothesis H_dec : forall b, dec b = bind (z_unmarshal false (z_container fs) b) of_vals.
+  (* in-limit values serialise field by field into chunks that decode back, and fit 32-bit offsets *)
+  Hypothesis H_fwd : forall v, wf v -> lim v ->
+    exists cs, to_chunks v = Ok cs /\ fo3 fs cs (vals v) /\ of_vals (vals v) = Ok v /\ exists data, zs_container (sers fs cs) = Ok data.
+  (* chunks that decode field by field are the serialisation of an in-limit value *)
+  Hypothesis H_inv : forall cs vs b, fo3 fs cs vs -> zs_container (sers fs cs) = Ok b ->
+    exists v, of_vals vs = Ok v /\ wf v /\ lim v /\ to_chunks v = Ok cs.
+  Hypothesis H_np : forall v, wf v -> enc v <> Panic.
+  Hypothesis H_sized : forall v cs, wf v -> to_chunks v = Ok cs -> sized fs cs.
+  Hypothesis H_inj : forall v v' cs, wf v -> wf v' -> to_chunks v = Ok cs -> to_chunks v' = Ok cs -> v = v'.
+
+  Lemma tc_dec_inv b v : dec b = Ok v -> wf v /\ lim v /\ exists cs, to_chunks v = Ok cs /\ zs_container (sers fs cs) = Ok b.
+  Proof.
+    rewrite H_dec, z_unmarshal_false.
+    destruct (z_container fs (rd_new b)) as [[vs r']| |] eqn:E; cbn [bind]; try discriminate.
+    destruct (container_inv _ _ _ _ Hex Hdyn E) as (cs & Hfo & Hz).
+    destruct (H_inv cs vs b Hfo Hz) as (v0 & Hov & Hw & Hl & Hc). rewrite Hov. intros H; apply Ok_inj in H. subst v0.
+    split; [exact Hw|]. split; [exact Hl|]. exists cs. split; assumption.
+  Qed.
+
+  Lemma tc_codec : codec_ok enc dec wf lim.
+  Proof.
+    split; [|split; [|split]].
+    - intros v Hw Hl. destruct (H_fwd v Hw Hl) as (cs & Hc & Hfo & Hov & data & Hz).
+      exists data. split; [rewrite H_enc, Hc; exact Hz|].
+      destruct (container_fwd fs cs _ data Hex Hfo Hz) as (r' & Hd & _).
+      rewrite H_dec, z_unmarshal_false, Hd. exact Hov.
+    - intros v Hw Hl. split; [now apply H_np|]. intros b Hb v' Hd.
+      apply tc_dec_inv in Hd as (Hw' & Hl' & cs' & Hc' & Hz').
+      rewrite H_enc in Hb. destruct (to_chunks v) as [cs| |] eqn:Hc; cbn [bind] in Hb; try discriminate.
+      assert (cs = cs') by (apply (zs_container_inj fs cs cs' b); [now apply (H_sized v)|now apply (H_sized v')|exact Hb|exact Hz']).
+      subst cs'. apply Hl. now rewrite (H_inj v v' cs Hw Hw' Hc Hc').
+    - intros b v H. apply tc_dec_inv in H. tauto.
+    - intros b v H. apply tc_dec_inv in H as (_ & _ & cs & Hc & Hz). now rewrite H_enc, Hc.
+  Qed.
+
+  Lemma tc_total b : dec b <> Panic.
+  Proof.
+    rewrite H_dec, z_unmarshal_false.
+    destruct (z_container fs (rd_new b)) as [[vs r']| |] eqn:E; cbn [bind]; try discriminate.
+    - destruct (container_inv _ _ _ _ Hex Hdyn E) as (cs & Hfo & Hz).
+      destruct (H_inv cs vs b Hfo Hz) as (v0 & Hov & _). rewrite Hov. discriminate.
+    - now apply container_total in E.
+  Qed.
+End TypedContainer.
+
+Lemma ser_Nibbles_ok n : exists s, ser_Nibbles n = Ok s.
+Proof.
+  unfold ser_Nibbles. destruct (Nat.even (length n)) eqn:Ev.
+  - destruct (pack_pairs_even _ n (le_n _) Ev) as [p Hp]. rewrite Hp. eexists; reflexivity.
+  - destruct n as [|f rest]; [discriminate|]. assert (Er : Nat.even (length rest) = true).
+    { simpl length in Ev. rewrite Nat.even_succ in Ev. rewrite <- Nat.negb_odd. now rewrite Ev. }
+    destruct (pack_pairs_even _ rest (le_n _) Er) as [p Hp]. rewrite Hp. eexists; reflexivity.
+Qed.
+
+Ltac inv_fo3 H :=
+  repeat match type of H with
+  | fo3 (_ :: _) _ _ => let c := fresh "c" in let v := fresh "x" in let Hcd := fresh "Hcd" in let Hsz := fresh "Hsz" in let Hr := fresh "Hr" in
+      inversion H as [|? ? c ? v ? Hcd Hsz Hr]; subst; clear H; rename Hr into H
+  | fo3 [] _ _ => inversion H; subst; clear H
+  end.
+
+(* ---- AccountTrieNodeKey : Path Nibbles (dynamic), NodeHash Bytes32 *)
+Definition ATK_fs : list zdes := [z_nibbles; z_bytesN 32].
+Definition AccountTrieNodeKey_wf (v : bytes * bytes) : Prop := Forall nib (fst v) /\ nlen (snd v) = 32.
+Definition AccountTrieNodeKey_lim (v : bytes * bytes) : Prop := nlen (fst v) <= L_Nibbles.
+
+Lemma ATK_exact : Forall exact ATK_fs.
+Proof. constructor; [apply exact_nibbles|constructor; [apply exact_bytesN; lia|constructor]]. Qed.
+Lemma ATK_total : Forall total ATK_fs.
+Proof. constructor; [apply total_nibbles|constructor; [apply total_bytesN|constructor]]. Qed.
+
+Lemma AccountTrieNodeKey_codec_total :
+  codec_ok enc_AccountTrieNodeKey dec_AccountTrieNodeKey AccountTrieNodeKey_wf AccountTrieNodeKey_lim /\
+  forall b, dec_AccountTrieNodeKey b <> Panic.
+Proof.
+  assert (Hdyn : has_dyn ATK_fs) by (unfold has_dyn; cbn; discriminate).
+  set (to_chunks := fun v : bytes * bytes => bind (ser_Nibbles (fst v)) (fun s => Ok [s; snd v])).
+  set (vals := fun v : bytes * bytes => [FB (fst v); FB (snd v)]).
+  set (of_vals := fun vs : list field => match vs with [FB p; FB h] => Ok (p, h) | _ => Panic end).
+  assert (H_enc : forall v, enc_AccountTrieNodeKey v = bind (to_chunks v) (fun cs => zs_container (sers ATK_fs cs))).
+  { intros [p h]. unfold enc_AccountTrieNodeKey, zser_dyn, to_chunks. cbn [fst snd]. destruct (ser_Nibbles p); reflexivity. }
+  assert (H_dec : forall b, dec_AccountTrieNodeKey b = bind (z_unmarshal false (z_container ATK_fs) b) of_vals) by reflexivity.
+  assert (H_np : forall v, AccountTrieNodeKey_wf v -> enc_AccountTrieNodeKey v <> Panic).
+  { intros [p h] _. rewrite H_enc. unfold to_chunks. cbn [fst snd]. destruct (ser_Nibbles_ok p) as [s ->]. cbn [bind].
+    destruct (zs_container_ok' ATK_fs [s; h] eq_refl) as [d ->]; [vm_compute; reflexivity|discriminate]. }
+  split.
+  - apply (tc_codec ATK_fs to_chunks vals of_vals _ _ _ _ ATK_exact Hdyn H_enc H_dec); [| |exact H_np| |].
+    + intros [p h] [Hn Hh] Hl. cbn [fst snd] in *. unfold AccountTrieNodeKey_lim in Hl. cbn [fst] in Hl.
+      destruct (cd_nibbles_fwd p (conj Hn Hl)) as (s & Hs & Hcd). exists [s; h]. unfold to_chunks. cbn [fst snd]. rewrite Hs.
+      split; [reflexivity|]. split; [|split; [reflexivity|apply (zs_container_ok' ATK_fs [s; h] eq_refl); vm_compute; reflexivity]].
+      constructor; [exact Hcd|intros H; exfalso; apply H; reflexivity|].
+      constructor; [apply cd_bytesN; [lia|exact Hh]|intros _; exact Hh|constructor].
+    + intros cs vs b0 Hfo _. unfold ATK_fs in Hfo. inv_fo3 Hfo.
+      apply cd_nibbles_inv in Hcd as (n & -> & Hs & Hok). specialize (Hsz0 ltac:(cbn; lia)). cbn [z_fix z_bytesN] in Hsz0.
+      rewrite cd_bytesN in Hcd0 by (try lia; exact Hsz0). apply Ok_inj in Hcd0. subst x0.
+      exists (n, c0). unfold of_vals, to_chunks, AccountTrieNodeKey_wf, AccountTrieNodeKey_lim. cbn [fst snd]. rewrite Hs.
+      destruct Hok as [Hn Hl]. repeat split; assumption.
+    + intros [p h] cs [_ Hh]. unfold to_chunks. cbn [fst snd] in *. destruct (ser_Nibbles p) as [s| |]; cbn [bind]; try discriminate.
+      intros H; apply Ok_inj in H. subst cs. constructor; [intros H; exfalso; apply H; reflexivity|].
+      constructor; [intros _; exact Hh|constructor].
+    + intros [p h] [p' h'] cs [Hn _] [Hn' _]. unfold to_chunks. cbn [fst snd] in *.
+      destruct (ser_Nibbles p) as [s| |] eqn:E; cbn [bind]; try discriminate.
+      destruct (ser_Nibbles p') as [s'| |] eqn:E'; cbn [bind]; try discriminate.
+      intros H H'. apply Ok_inj in H, H'. subst cs. injection H' as -> ->. f_equal. exact (ser_Nibbles_inj p p' s Hn Hn' E E').
+  - apply (tc_total ATK_fs to_chunks of_vals dec_AccountTrieNodeKey AccountTrieNodeKey_wf AccountTrieNodeKey_lim ATK_exact ATK_total Hdyn H_dec).
+    intros cs vs b0 Hfo _. unfold ATK_fs in Hfo. inv_fo3 Hfo.
+    apply cd_nibbles_inv in Hcd as (n & -> & Hs & Hok). specialize (Hsz0 ltac:(cbn; lia)). cbn [z_fix z_bytesN] in Hsz0.
+    rewrite cd_bytesN in Hcd0 by (try lia; exact Hsz0). apply Ok_inj in Hcd0. subst x0.
+    exists (n, c0). unfold of_vals, to_chunks, AccountTrieNodeKey_wf, AccountTrieNodeKey_lim. cbn [fst snd]. rewrite Hs.
+    destruct Hok as [Hn Hl]. repeat split; assumption.
+Qed.
+
+(* ---- ContractStorageTrieNodeKey : AddressHash Bytes32, Path Nibbles (dynamic), NodeHash Bytes32 *)
+Definition STK_fs : list zdes := [z_bytesN 32; z_nibbles; z_bytesN 32].
+Definition StorageTrieNodeKey_wf (v : bytes * bytes * bytes) : Prop :=
+  let '(a, p, h) := v in nlen a = 32 /\ Forall nib p /\ nlen h = 32.
+Definition StorageTrieNodeKey_lim (v : bytes * bytes * bytes) : Prop := let '(a, p, h) := v in nlen p <= L_Nibbles.
+
+Lemma StorageTrieNodeKey_codec_total :
+  codec_ok enc_StorageTrieNodeKey dec_StorageTrieNodeKey StorageTrieNodeKey_wf StorageTrieNodeKey_lim /\
+  forall b, dec_StorageTrieNodeKey b <> Panic.
+Proof.
+  assert (Hex : Forall exact STK_fs).
+  { constructor; [apply exact_bytesN; lia|constructor; [apply exact_nibbles|constructor; [apply exact_bytesN; lia|constructor]]]. }
+  assert (Htot : Forall total STK_fs).
+  { constructor; [apply total_bytesN|constructor; [apply total_nibbles|constructor; [apply total_bytesN|constructor]]]. }
+  assert (Hdyn : has_dyn STK_fs) by (unfold has_dyn; cbn; discriminate).
+  set (to_chunks := fun v : bytes * bytes * bytes => let '(a, p, h) := v in bind (ser_Nibbles p) (fun s => Ok [a; s; h])).
+  set (vals := fun v : bytes * bytes * bytes => let '(a, p, h) := v in [FB a; FB p; FB h]).
+  set (of_vals := fun vs : list field => match vs with [FB a; FB p; FB h] => Ok (a, p, h) | _ => Panic end).
+  assert (H_enc : forall v, enc_StorageTrieNodeKey v = bind (to_chunks v) (fun cs => zs_container (sers STK_fs cs))).
+  { intros [[a p] h]. unfold enc_StorageTrieNodeKey, zser_dyn, to_chunks. destruct (ser_Nibbles p); reflexivity. }
+  assert (H_dec : forall b, dec_StorageTrieNodeKey b = bind (z_unmarshal false (z_container STK_fs) b) of_vals) by reflexivity.
+  assert (H_np : forall v, StorageTrieNodeKey_wf v -> enc_StorageTrieNodeKey v <> Panic).
+  { intros [[a p] h] _. rewrite H_enc. unfold to_chunks. destruct (ser_Nibbles_ok p) as [s ->]. cbn [bind].
+    destruct (zs_container_ok' STK_fs [a; s; h] eq_refl) as [d ->]; [vm_compute; reflexivity|discriminate]. }
+  assert (H_inv : forall cs vs (b0 : bytes), fo3 STK_fs cs vs -> zs_container (sers STK_fs cs) = Ok b0 ->
+    exists v, of_vals vs = Ok v /\ StorageTrieNodeKey_wf v /\ StorageTrieNodeKey_lim v /\ to_chunks v = Ok cs).
+  { intros cs vs b0 Hfo _. unfold STK_fs in Hfo. inv_fo3 Hfo.
+    specialize (Hsz ltac:(cbn; lia)). specialize (Hsz1 ltac:(cbn; lia)). cbn [z_fix z_bytesN] in Hsz, Hsz1.
+    rewrite cd_bytesN in Hcd by (try lia; exact Hsz). apply Ok_inj in Hcd. subst x.
+    apply cd_nibbles_inv in Hcd0 as (n & -> & Hs & [Hn Hl]).
+    rewrite cd_bytesN in Hcd1 by (try lia; exact Hsz1). apply Ok_inj in Hcd1. subst x1.
+    exists (c, n, c1). unfold of_vals, to_chunks, StorageTrieNodeKey_wf, StorageTrieNodeKey_lim. rewrite Hs. repeat split; assumption. }
+  split.
+  - apply (tc_codec STK_fs to_chunks vals of_vals _ _ _ _ Hex Hdyn H_enc H_dec); [|exact H_inv|exact H_np| |].
+    + intros [[a p] h] (Ha & Hn & Hh) Hl. unfold StorageTrieNodeKey_lim in Hl.
+      destruct (cd_nibbles_fwd p (conj Hn Hl)) as (s & Hs & Hcd). exists [a; s; h]. unfold to_chunks. rewrite Hs.
+      split; [reflexivity|]. split; [|split; [reflexivity|apply (zs_container_ok' STK_fs [a; s; h] eq_refl); vm_compute; reflexivity]].
+      constructor; [apply cd_bytesN; [lia|exact Ha]|intros _; exact Ha|].
+      constructor; [exact Hcd|intros H; exfalso; apply H; reflexivity|].
+      constructor; [apply cd_bytesN; [lia|exact Hh]|intros _; exact Hh|constructor].
+    + intros [[a p] h] cs (Ha & _ & Hh). unfold to_chunks. destruct (ser_Nibbles p) as [s| |]; cbn [bind]; try discriminate.
+      intros H; apply Ok_inj in H. subst cs. constructor; [intros _; exact Ha|].
+      constructor; [intros H; exfalso; apply H; reflexivity|]. constructor; [intros _; exact Hh|constructor].
+    + intros [[a p] h] [[a' p'] h'] cs (_ & Hn & _) (_ & Hn' & _). unfold to_chunks.
+      destruct (ser_Nibbles p) as [s| |] eqn:E; cbn [bind]; try discriminate.
+      destruct (ser_Nibbles p') as [s'| |] eqn:E'; cbn [bind]; try discriminate.
+      intros H H'. apply Ok_inj in H, H'. subst cs. injection H' as -> -> ->. f_equal. f_equal. exact (ser_Nibbles_inj p p' s Hn Hn' E E').
+  - exact (tc_total STK_fs to_chunks of_vals dec_StorageTrieNodeKey StorageTrieNodeKey_wf StorageTrieNodeKey_lim Hex Htot Hdyn H_dec H_inv).
+Qed.
+
+(* ================================================================== TrieProof and the *WithProof containers *)
+Definition BLP : zdes := z_bytelists L_TrieNode L_TrieProof.
+Definition proof_lim (l : list bytes) : Prop := nlen l <= L_TrieProof /\ items_ok L_TrieNode l.
+
+Lemma total_len_items IL l : items_ok IL l -> total_len l <= nlen l * IL.
+Proof.
+  induction 1 as [|x l Hx _ IH]; [unfold nlen; simpl; lia|]. cbn [total_len]. rewrite nlen_cons. lia.
+Qed.
+Lemma proof_lim_fits l : proof_lim l -> bl_fits l.
+Proof.
+  intros [H1 H2]. apply bl_fits_small. pose proof (total_len_items _ _ H2). unfold L_TrieProof, L_TrieNode, two32 in *. nia.
+Qed.
+Lemma proof_lim_len l s : proof_lim l -> zs_bytelists l = Ok s -> nlen s <= 70000.
+Proof.
+  intros [H1 H2] Hs. rewrite (zs_bytelists_len _ _ Hs). pose proof (total_len_items _ _ H2). unfold L_TrieProof, L_TrieNode in *. nia.
+Qed.
+
+Lemma proof_fwd l : proof_lim l -> exists s, zs_bytelists l = Ok s /\ cd_of BLP s = Ok (FL l).
+Proof.
+  intros Hl. pose proof (proof_lim_fits l Hl) as Hf. exists (bl_layout l).
+  assert (Hs : zs_bytelists l = Ok (bl_layout l)) by (apply zs_bytelists_iff; split; [reflexivity|exact Hf]).
+  split; [exact Hs|]. destruct Hl. now apply cd_bytelists_fwd.
+Qed.
+Lemma proof_inv s v : cd_of BLP s = Ok v -> exists l, v = FL l /\ zs_bytelists l = Ok s /\ proof_lim l.
+Proof. intros H. apply cd_bytelists_inv in H as (l & -> & Hs & Hn & Hok). exists l. repeat split; assumption. Qed.
+Lemma bl_fits_enc l : bl_fits l -> exists s, zs_bytelists l = Ok s.
+Proof. intros H. exists (bl_layout l). apply zs_bytelists_iff. split; [reflexivity|exact H]. Qed.
+Lemma enc_fits l s : zs_bytelists l = Ok s -> bl_fits l.
+Proof. intros H. apply zs_bytelists_iff in H. apply H. Qed.
+
+(* ---- TrieProof on its own *)
+Lemma dec_TrieProof_cd data : dec_TrieProof data = bind (cd_of BLP data) (fun v => match v with FL l => Ok l | _ => Panic end).
+Proof.
+  unfold dec_TrieProof, cd_of. rewrite z_unmarshal_false. unfold rd_new. fold BLP.
+  destruct (z_de BLP _) as [[v r']| |]; reflexivity.
+Qed.
+
+Lemma TrieProof_codec : codec_ok enc_TrieProof dec_TrieProof bl_fits proof_lim.
+Proof.
+  unfold enc_TrieProof. split; [|split; [|split]].
+  - intros v _ Hl. destruct (proof_fwd v Hl) as (s & Hs & Hcd). exists s. split; [exact Hs|]. now rewrite dec_TrieProof_cd, Hcd.
+  - intros v Hw Hl. destruct (bl_fits_enc v Hw) as [s Hs]. rewrite Hs. split; [discriminate|]. intros b Hb v' Hd.
+    apply Ok_inj in Hb. subst b. rewrite dec_TrieProof_cd in Hd.
+    destruct (cd_of BLP s) as [x| |] eqn:E; cbn [bind] in Hd; try discriminate.
+    apply proof_inv in E as (l & -> & Hs' & Hl'). apply Ok_inj in Hd. subst l.
+    rewrite (zs_bytelists_inj v v' s Hs Hs') in Hl. contradiction.
+  - intros b v Hd. rewrite dec_TrieProof_cd in Hd. destruct (cd_of BLP b) as [x| |] eqn:E; cbn [bind] in Hd; try discriminate.
+    apply proof_inv in E as (l & -> & Hs' & Hl'). apply Ok_inj in Hd. subst l. split; [now apply (enc_fits v b)|exact Hl'].
+  - intros b v Hd. rewrite dec_TrieProof_cd in Hd. destruct (cd_of BLP b) as [x| |] eqn:E; cbn [bind] in Hd; try discriminate.
+    apply proof_inv in E as (l & -> & Hs' & Hl'). apply Ok_inj in Hd. now subst l.
+Qed.
+Lemma dec_TrieProof_total b : dec_TrieProof b <> Panic.
+Proof.
+  rewrite dec_TrieProof_cd. destruct (cd_of BLP b) as [x| |] eqn:E; cbn [bind]; try discriminate.
+  - apply proof_inv in E as (l & -> & _). discriminate.
+  - unfold cd_of in E. destruct (z_de BLP _) as [[v r']| |] eqn:E2; cbn [bind] in E; try discriminate.
+    now apply (total_bytelists L_TrieNode L_TrieProof) in E2.
+Qed.
+
+Lemma BLP_exact : exact BLP. Proof. apply exact_bytelists. Qed.
+Lemma BLP_total : total BLP. Proof. apply total_bytelists. Qed.
+
+(* ---- AccountTrieNodeWithProof : Proof TrieProof (dynamic), BlockHash Bytes32 *)
+Definition ATP_fs : list zdes := [BLP; z_bytesN 32].
+Definition AccountTrieNodeWithProof_wf (v : list bytes * bytes) : Prop := bl_fits (fst v) /\ nlen (snd v) = 32.
+Definition AccountTrieNodeWithProof_lim (v : list bytes * bytes) : Prop := proof_lim (fst v).
+
+Lemma AccountTrieNodeWithProof_codec_total :
+  codec_ok enc_AccountTrieNodeWithProof dec_AccountTrieNodeWithProof AccountTrieNodeWithProof_wf AccountTrieNodeWithProof_lim /\
+  forall b, dec_AccountTrieNodeWithProof b <> Panic.
+Proof.
+  assert (Hex : Forall exact ATP_fs) by (constructor; [apply BLP_exact|constructor; [apply exact_bytesN; lia|constructor]]).
+  assert (Htot : Forall total ATP_fs) by (constructor; [apply BLP_total|constructor; [apply total_bytesN|constructor]]).
+  assert (Hdyn : has_dyn ATP_fs) by (unfold has_dyn; cbn; discriminate).
+  set (to_chunks := fun v : list bytes * bytes => bind (zs_bytelists (fst v)) (fun s => Ok [s; snd v])).
+  set (vals := fun v : list bytes * bytes => [FL (fst v); FB (snd v)]).
+  set (of_vals := fun vs : list field => match vs with [FL p; FB h] => Ok (p, h) | _ => Panic end).
+  assert (H_enc : forall v, enc_AccountTrieNodeWithProof v = bind (to_chunks v) (fun cs => zs_container (sers ATP_fs cs))).
+  { intros [p h]. unfold enc_AccountTrieNodeWithProof, zser_dyn, to_chunks. cbn [fst snd]. destruct (zs_bytelists p); reflexivity. }
+  assert (H_dec : forall b, dec_AccountTrieNodeWithProof b = bind (z_unmarshal false (z_container ATP_fs) b) of_vals) by reflexivity.
+  assert (H_np : forall v, AccountTrieNodeWithProof_wf v -> enc_AccountTrieNodeWithProof v <> Panic).
+  { intros [p h] [Hf _]. rewrite H_enc. unfold to_chunks. cbn [fst snd] in *. destruct (bl_fits_enc p Hf) as [s ->]. cbn [bind].
+    destruct (zs_container_ok' ATP_fs [s; h] eq_refl) as [d ->]; [vm_compute; reflexivity|discriminate]. }
+  assert (H_inv : forall cs vs (b0 : bytes), fo3 ATP_fs cs vs -> zs_container (sers ATP_fs cs) = Ok b0 ->
+    exists v, of_vals vs = Ok v /\ AccountTrieNodeWithProof_wf v /\ AccountTrieNodeWithProof_lim v /\ to_chunks v = Ok cs).
+  { intros cs vs b0 Hfo _. unfold ATP_fs in Hfo. inv_fo3 Hfo.
+    apply proof_inv in Hcd as (l & -> & Hs & Hl). specialize (Hsz0 ltac:(cbn; lia)). cbn [z_fix z_bytesN] in Hsz0.
+    rewrite cd_bytesN in Hcd0 by (try lia; exact Hsz0). apply Ok_inj in Hcd0. subst x0.
+    exists (l, c0). unfold of_vals, to_chunks, AccountTrieNodeWithProof_wf, AccountTrieNodeWithProof_lim. cbn [fst snd]. rewrite Hs.
+    split; [reflexivity|]. split; [split; [now apply (enc_fits l c)|exact Hsz0]|]. split; [exact Hl|reflexivity]. }
+  split.
+  - apply (tc_codec ATP_fs to_chunks vals of_vals _ _ _ _ Hex Hdyn H_enc H_dec); [|exact H_inv|exact H_np| |].
+    + intros [p h] [Hf Hh] Hl. cbn [fst snd] in *. unfold AccountTrieNodeWithProof_lim in Hl. cbn [fst] in Hl.
+      destruct (proof_fwd p Hl) as (s & Hs & Hcd). exists [s; h]. unfold to_chunks. cbn [fst snd]. rewrite Hs.
+      split; [reflexivity|]. split; [|split; [reflexivity|apply (zs_container_ok' ATP_fs [s; h] eq_refl); vm_compute; reflexivity]].
+      constructor; [exact Hcd|intros H; exfalso; apply H; reflexivity|].
+      constructor; [apply cd_bytesN; [lia|exact Hh]|intros _; exact Hh|constructor].
+    + intros [p h] cs [_ Hh]. unfold to_chunks. cbn [fst snd] in *. destruct (zs_bytelists p) as [s| |]; cbn [bind]; try discriminate.
+      intros H; apply Ok_inj in H. subst cs. constructor; [intros H; exfalso; apply H; reflexivity|].
+      constructor; [intros _; exact Hh|constructor].
+    + intros [p h] [p' h'] cs _ _. unfold to_chunks. cbn [fst snd].
+      destruct (zs_bytelists p) as [s| |] eqn:E; cbn [bind]; try discriminate.
+      destruct (zs_bytelists p') as [s'| |] eqn:E'; cbn [bind]; try discriminate.
+      intros H H'. apply Ok_inj in H, H'. subst cs. injection H' as -> ->. f_equal. exact (zs_bytelists_inj p p' s E E').
+  - exact (tc_total ATP_fs to_chunks of_vals dec_AccountTrieNodeWithProof AccountTrieNodeWithProof_wf AccountTrieNodeWithProof_lim Hex Htot Hdyn H_dec H_inv).
+Qed.
+
+(* two dynamic fields followed by a Bytes32: the second offset (40 + size of the first chunk) must fit uint32 *)
+Lemma two_dyn_bound f1 f2 c1 c2 c3 b : z_fix f1 = 0 -> z_fix f2 = 0 ->
+  zs_container (sers [f1; f2; z_bytesN 32] [c1; c2; c3]) = Ok b -> 40 + nlen c1 < two32.
+Proof.
+  intros H1 H2. unfold zs_container, zs_fixedlen. cbn [sers fold_left s_fix zs_pass1 s_bytes z_fix z_bytesN]. rewrite H1, H2.
+  change (0 =? 0) with true. change (32 =? 0) with false. cbn [negb]. unfold z_write_offset.
+  replace (0 + 4 + 4 + 32) with 40 by reflexivity.
+  change ((two32 <=? 40) || (two32 <=? 0) || (two32 <=? 40 + 0)) with false. cbv iota. cbn [bind].
+  replace (40 + 0) with 40 by reflexivity.
+  destruct ((two32 <=? 40) || (two32 <=? nlen c1) || (two32 <=? 40 + nlen c1)) eqn:E; [discriminate|]. intros _. lia.
+Qed.
+
+Lemma two_dyn_ok f1 f2 c1 c2 c3 : z_fix f1 = 0 -> z_fix f2 = 0 -> 40 + nlen c1 < two32 ->
+  exists d, zs_container (sers [f1; f2; z_bytesN 32] [c1; c2; c3]) = Ok d.
+Proof.
+  intros H1 H2 Hb. apply (zs_container_ok' [f1; f2; z_bytesN 32] [c1; c2; c3] eq_refl).
+  cbn [fixedlen dyn_sel z_fix z_bytesN]. rewrite H1, H2. change (0 =? 0) with true. change (32 =? 0) with false. cbv iota.
+  cbn [removelast total_len]. lia.
+Qed.
+
+(* ---- ContractStorageTrieNodeWithProof : StorageProof, AccountProof (both dynamic), BlockHash Bytes32 *)
+Definition STP_fs : list zdes := [BLP; BLP; z_bytesN 32].
+Definition ser_len (l : list bytes) : N := 4 * nlen l + total_len l.
+Definition StorageTrieNodeWithProof_wf (v : list bytes * list bytes * bytes) : Prop :=
+  let '(sp, ap, h) := v in bl_fits sp /\ bl_fits ap /\ 40 + ser_len sp < two32 /\ nlen h = 32.
+Definition StorageTrieNodeWithProof_lim (v : list bytes * list bytes * bytes) : Prop :=
+  let '(sp, ap, h) := v in proof_lim sp /\ proof_lim ap.
+
+Lemma StorageTrieNodeWithProof_codec_total :
+  codec_ok enc_StorageTrieNodeWithProof dec_StorageTrieNodeWithProof StorageTrieNodeWithProof_wf StorageTrieNodeWithProof_lim /\
+  forall b, dec_StorageTrieNodeWithProof b <> Panic.
+Proof.
+  assert (Hex : Forall exact STP_fs) by (repeat (constructor; [first [apply BLP_exact|apply exact_bytesN; lia]|]); constructor).
+  assert (Htot : Forall total STP_fs) by (repeat (constructor; [first [apply BLP_total|apply total_bytesN]|]); constructor).
+  assert (Hdyn : has_dyn STP_fs) by (unfold has_dyn; cbn; discriminate).
+  set (to_chunks := fun v : list bytes * list bytes * bytes => let '(sp, ap, h) := v in
+         bind (zs_bytelists sp) (fun s => bind (zs_bytelists ap) (fun a => Ok [s; a; h]))).
+  set (vals := fun v : list bytes * list bytes * bytes => let '(sp, ap, h) := v in [FL sp; FL ap; FB h]).
+  set (of_vals := fun vs : list field => match vs with [FL s; FL a; FB h] => Ok (s, a, h) | _ => Panic end).
+  assert (H_enc : forall v, enc_StorageTrieNodeWithProof v = bind (to_chunks v) (fun cs => zs_container (sers STP_fs cs))).
+  { intros [[sp ap] h]. unfold enc_StorageTrieNodeWithProof, zser_dyn, to_chunks.
+    destruct (zs_bytelists sp); cbn [bind]; try reflexivity. destruct (zs_bytelists ap); reflexivity. }
+  assert (H_dec : forall b, dec_StorageTrieNodeWithProof b = bind (z_unmarshal false (z_container STP_fs) b) of_vals) by reflexivity.
+  assert (H_ok : forall s a h, 40 + nlen s < two32 -> exists d, zs_container (sers STP_fs [s; a; h]) = Ok d).
+  { intros s a h Hb. now apply two_dyn_ok. }
+  assert (H_np : forall v, StorageTrieNodeWithProof_wf v -> enc_StorageTrieNodeWithProof v <> Panic).
+  { intros [[sp ap] h] (Hs & Ha & Hb & _). rewrite H_enc. unfold to_chunks.
+    destruct (bl_fits_enc sp Hs) as [s Es]. destruct (bl_fits_enc ap Ha) as [a Ea]. rewrite Es, Ea. cbn [bind].
+    assert (Hb' : 40 + nlen s < two32) by (rewrite (zs_bytelists_len _ _ Es); exact Hb).
+    destruct (H_ok s a h Hb') as [d Hd]. intros Hp. unfold bytes in *. rewrite Hd in Hp. discriminate. }
+  assert (H_inv : forall cs vs (b0 : bytes), fo3 STP_fs cs vs -> zs_container (sers STP_fs cs) = Ok b0 ->
+    exists v, of_vals vs = Ok v /\ StorageTrieNodeWithProof_wf v /\ StorageTrieNodeWithProof_lim v /\ to_chunks v = Ok cs).
+  { intros cs vs b0 Hfo Hz. unfold STP_fs in Hfo. inv_fo3 Hfo.
+    apply two_dyn_bound in Hz; [|reflexivity|reflexivity].
+    apply proof_inv in Hcd as (sp & -> & Hs & Hl). apply proof_inv in Hcd0 as (ap & -> & Ha & Hl0).
+    specialize (Hsz1 ltac:(cbn; lia)). cbn [z_fix z_bytesN] in Hsz1.
+    rewrite cd_bytesN in Hcd1 by (try lia; exact Hsz1). apply Ok_inj in Hcd1. subst x1.
+    exists (sp, ap, c1). unfold of_vals, to_chunks, StorageTrieNodeWithProof_wf, StorageTrieNodeWithProof_lim. rewrite Hs, Ha.
+    split; [reflexivity|]. split; [|split; [split; assumption|reflexivity]].
+    split; [now apply (enc_fits sp c)|]. split; [now apply (enc_fits ap c0)|]. split; [|exact Hsz1].
+    unfold ser_len. rewrite <- (zs_bytelists_len _ _ Hs). exact Hz. }
+  split.
+  - apply (tc_codec STP_fs to_chunks vals of_vals _ _ _ _ Hex Hdyn H_enc H_dec); [|exact H_inv|exact H_np| |].
+    + intros [[sp ap] h] (Hfs & Hfa & Hb & Hh) [Hls Hla].
+      destruct (proof_fwd sp Hls) as (s & Es & Cs). destruct (proof_fwd ap Hla) as (a & Ea & Ca).
+      exists [s; a; h]. unfold to_chunks. rewrite Es, Ea. split; [reflexivity|].
+      split; [|split; [reflexivity|apply H_ok; rewrite (zs_bytelists_len _ _ Es); exact Hb]].
+      constructor; [exact Cs|intros H; exfalso; apply H; reflexivity|].
+      constructor; [exact Ca|intros H; exfalso; apply H; reflexivity|].
+      constructor; [apply cd_bytesN; [lia|exact Hh]|intros _; exact Hh|constructor].
+    + intros [[sp ap] h] cs (_ & _ & _ & Hh). unfold to_chunks.
+      destruct (zs_bytelists sp) as [s| |]; cbn [bind]; try discriminate. destruct (zs_bytelists ap) as [a| |]; cbn [bind]; try discriminate.
+      intros H; apply Ok_inj in H. subst cs. constructor; [intros H; exfalso; apply H; reflexivity|].
+      constructor; [intros H; exfalso; apply H; reflexivity|]. constructor; [intros _; exact Hh|constructor].
+    + intros [[sp ap] h] [[sp' ap'] h'] cs _ _. unfold to_chunks.
+      destruct (zs_bytelists sp) as [s| |] eqn:E1; cbn [bind]; try discriminate.
+      destruct (zs_bytelists ap) as [a| |] eqn:E2; cbn [bind]; try discriminate.
+      destruct (zs_bytelists sp') as [s'| |] eqn:E1'; cbn [bind]; try discriminate.
+      destruct (zs_bytelists ap') as [a'| |] eqn:E2'; cbn [bind]; try discriminate.
+      intros H H'. apply Ok_inj in H, H'. subst cs. injection H' as -> -> ->.
+      rewrite (zs_bytelists_inj sp sp' s E1 E1'), (zs_bytelists_inj ap ap' a E2 E2'). reflexivity.
+  - exact (tc_total STP_fs to_chunks of_vals dec_StorageTrieNodeWithProof StorageTrieNodeWithProof_wf StorageTrieNodeWithProof_lim Hex Htot Hdyn H_dec H_inv).
+Qed.
+
+(* ---- ContractBytecodeWithProof : Code ByteList[32768], AccountProof TrieProof (both dynamic), BlockHash Bytes32 *)
+Definition BCP_fs : list zdes := [z_bytelist L_Bytecode; BLP; z_bytesN 32].
+Definition BytecodeWithProof_wf (v : bytes * list bytes * bytes) : Prop :=
+  let '(c, ap, h) := v in 40 + nlen c < two32 /\ bl_fits ap /\ nlen h = 32.
+Definition BytecodeWithProof_lim (v : bytes * list bytes * bytes) : Prop :=
+  let '(c, ap, h) := v in nlen c <= L_Bytecode /\ proof_lim ap.
+
+Lemma BytecodeWithProof_codec_total :
+  codec_ok enc_BytecodeWithProof dec_BytecodeWithProof BytecodeWithProof_wf BytecodeWithProof_lim /\
+  forall b, dec_BytecodeWithProof b <> Panic.
+Proof.
+  assert (Hex : Forall exact BCP_fs) by (constructor; [apply exact_bytelist|constructor; [apply BLP_exact|constructor; [apply exact_bytesN; lia|constructor]]]).
+  assert (Htot : Forall total BCP_fs) by (constructor; [apply total_bytelist|constructor; [apply BLP_total|constructor; [apply total_bytesN|constructor]]]).
+  assert (Hdyn : has_dyn BCP_fs) by (unfold has_dyn; cbn; discriminate).
+  set (to_chunks := fun v : bytes * list bytes * bytes => let '(c, ap, h) := v in bind (zs_bytelists ap) (fun a => Ok [c; a; h])).
+  set (vals := fun v : bytes * list bytes * bytes => let '(c, ap, h) := v in [FB c; FL ap; FB h]).
+  set (of_vals := fun vs : list field => match vs with [FB c; FL a; FB h] => Ok (c, a, h) | _ => Panic end).
+  assert (H_enc : forall v, enc_BytecodeWithProof v = bind (to_chunks v) (fun cs => zs_container (sers BCP_fs cs))).
+  { intros [[c ap] h]. unfold enc_BytecodeWithProof, zser_dyn, to_chunks. destruct (zs_bytelists ap); reflexivity. }
+  assert (H_dec : forall b, dec_BytecodeWithProof b = bind (z_unmarshal false (z_container BCP_fs) b) of_vals) by reflexivity.
+  assert (H_ok : forall c a h, 40 + nlen c < two32 -> exists d, zs_container (sers BCP_fs [c; a; h]) = Ok d).
+  { intros c a h Hb. now apply two_dyn_ok. }
+  assert (H_np : forall v, BytecodeWithProof_wf v -> enc_BytecodeWithProof v <> Panic).
+  { intros [[c ap] h] (Hb & Ha & _). rewrite H_enc. unfold to_chunks.
+    destruct (bl_fits_enc ap Ha) as [a Ea]. rewrite Ea. cbn [bind]. destruct (H_ok c a h Hb) as [d Hd]. intros Hp. unfold bytes in *. rewrite Hd in Hp. discriminate. }
+  assert (H_inv : forall cs vs (b0 : bytes), fo3 BCP_fs cs vs -> zs_container (sers BCP_fs cs) = Ok b0 ->
+    exists v, of_vals vs = Ok v /\ BytecodeWithProof_wf v /\ BytecodeWithProof_lim v /\ to_chunks v = Ok cs).
+  { intros cs vs b0 Hfo Hz. unfold BCP_fs in Hfo. inv_fo3 Hfo.
+    apply two_dyn_bound in Hz; [|reflexivity|reflexivity].
+    rewrite cd_bytelist in Hcd. destruct (L_Bytecode <? nlen c) eqn:El; [discriminate|]. apply Ok_inj in Hcd. subst x.
+    apply proof_inv in Hcd0 as (ap & -> & Ha & Hl0).
+    specialize (Hsz1 ltac:(cbn; lia)). cbn [z_fix z_bytesN] in Hsz1.
+    rewrite cd_bytesN in Hcd1 by (try lia; exact Hsz1). apply Ok_inj in Hcd1. subst x1.
+    exists (c, ap, c1). unfold of_vals, to_chunks, BytecodeWithProof_wf, BytecodeWithProof_lim. rewrite Ha.
+    split; [reflexivity|]. split; [|split; [split; [lia|exact Hl0]|reflexivity]].
+    split; [exact Hz|]. split; [now apply (enc_fits ap c0)|exact Hsz1]. }
+  split.
+  - apply (tc_codec BCP_fs to_chunks vals of_vals _ _ _ _ Hex Hdyn H_enc H_dec); [|exact H_inv|exact H_np| |].
+    + intros [[c ap] h] (Hb & Hfa & Hh) [Hlc Hla].
+      destruct (proof_fwd ap Hla) as (a & Ea & Ca).
+      exists [c; a; h]. unfold to_chunks. rewrite Ea. split; [reflexivity|].
+      split; [|split; [reflexivity|now apply H_ok]].
+      constructor; [rewrite cd_bytelist; now replace (L_Bytecode <? nlen c) with false by lia|intros H; exfalso; apply H; reflexivity|].
+      constructor; [exact Ca|intros H; exfalso; apply H; reflexivity|].
+      constructor; [apply cd_bytesN; [lia|exact Hh]|intros _; exact Hh|constructor].
+    + intros [[c ap] h] cs (_ & _ & Hh). unfold to_chunks.
+      destruct (zs_bytelists ap) as [a| |]; cbn [bind]; try discriminate.
+      intros H; apply Ok_inj in H. subst cs. constructor; [intros H; exfalso; apply H; reflexivity|].
+      constructor; [intros H; exfalso; apply H; reflexivity|]. constructor; [intros _; exact Hh|constructor].
+    + intros [[c ap] h] [[c' ap'] h'] cs _ _. unfold to_chunks.
+      destruct (zs_bytelists ap) as [a| |] eqn:E2; cbn [bind]; try discriminate.
+      destruct (zs_bytelists ap') as [a'| |] eqn:E2'; cbn [bind]; try discriminate.
+      intros H H'. apply Ok_inj in H, H'. subst cs. injection H' as -> -> ->.
+      rewrite (zs_bytelists_inj ap ap' a E2 E2'). reflexivity.
+  - exact (tc_total BCP_fs to_chunks of_vals dec_BytecodeWithProof BytecodeWithProof_wf BytecodeWithProof_lim Hex Htot Hdyn H_dec H_inv).
+Qed.
+
+(* ================================================================== every decoder of the second table is total *)
+Lemma dec_any2_total fs t b : dec_any2 fs t b <> Panic.
+Proof.
+  destruct t; cbn [dec_any2]; apply rmap_total.
+  - apply AccountTrieNodeKey_codec_total.
+  - apply StorageTrieNodeKey_codec_total.
+  - apply dec_BytecodeKey_total.
+  - apply dec_TrieNode_total.
+  - apply dec_TrieProof_total.
+  - apply dec_BytecodeContainer_total.
+  - apply AccountTrieNodeWithProof_codec_total.
+  - apply StorageTrieNodeWithProof_codec_total.
+  - apply BytecodeWithProof_codec_total.
+  - apply dec_HistSummariesKey_total.
+Qed.
+
+(* ================================================================== beacon Forked* wrappers *)
+Definition known_digest (d : bytes) : Prop := d = D_Bellatrix \/ d = D_Capella \/ d = D_Deneb \/ d = D_Electra.
+
+(* the switch: known digests select the payload type of their fork, anything else is "unknown fork digest";
+   ForkedLightClientOptimisticUpdate maps Electra to the Deneb type; ForkedHistoricalSummariesWithProof has no switch *)
+Lemma fork_select_known w :
+  fork_select w D_Bellatrix = Some 0 /\ fork_select w D_Capella = Some (match w with WHistSummaries => 0 | _ => 1 end) /\
+  fork_select w D_Deneb = Some (match w with WHistSummaries => 0 | _ => 2 end) /\
+  fork_select w D_Electra = Some (match w with WHistSummaries => 0 | WOptimistic => 2 | _ => 3 end).
+Proof. destruct w; repeat split; vm_compute; reflexivity. Qed.
+
+Lemma fork_select_unknown w d : w <> WHistSummaries -> ~ known_digest d -> fork_select w d = None.
+Proof.
+  intros Hw Hk. unfold known_digest in Hk.
+  assert (E1 : bytes_eqb d D_Bellatrix = false) by (destruct (bytes_eqb d D_Bellatrix) eqn:E; [apply bytes_eqb_eq in E; tauto|reflexivity]).
+  assert (E2 : bytes_eqb d D_Capella = false) by (destruct (bytes_eqb d D_Capella) eqn:E; [apply bytes_eqb_eq in E; tauto|reflexivity]).
+  assert (E3 : bytes_eqb d D_Deneb = false) by (destruct (bytes_eqb d D_Deneb) eqn:E; [apply bytes_eqb_eq in E; tauto|reflexivity]).
+  assert (E4 : bytes_eqb d D_Electra = false) by (destruct (bytes_eqb d D_Electra) eqn:E; [apply bytes_eqb_eq in E; tauto|reflexivity]).
+  destruct w; try congruence; unfold fork_select; now rewrite E1, E2, E3, E4.
+Qed.
+Lemma fork_select_some w d k : fork_select w d = Some k -> w = WHistSummaries \/ known_digest d.
+Proof.
+  intros H. destruct w; [right|right|right|right|now left]; unfold fork_select in H;
+    (destruct (bytes_eqb d D_Bellatrix) eqn:E1; [apply bytes_eqb_eq in E1; unfold known_digest; tauto|]);
+    (destruct (bytes_eqb d D_Capella) eqn:E2; [apply bytes_eqb_eq in E2; unfold known_digest; tauto|]);
+    (destruct (bytes_eqb d D_Deneb) eqn:E3; [apply bytes_eqb_eq in E3; unfold known_digest; tauto|]);
+    (destruct (bytes_eqb d D_Electra) eqn:E4; [apply bytes_eqb_eq in E4; unfold known_digest; tauto|]); discriminate.
+Qed.
+
+Section ForkedProofs.
+  Variable P : Type.
+  Variable pdec : N -> bytes -> res P.
+  Variable penc : N -> P -> bytes.
+
+  Lemma dec_Forked_digest s w d rest : nlen d = 4 ->
+    dec_Forked P pdec penc s w (d ++ rest) =
+    match fork_select w d with
+    | None => Err E_SELECTOR
+    | Some k => bind (pdec k rest) (fun p =>
+        if (match w with WHistSummaries => false | _ => s end) && negb (nlen (d ++ rest) =? 4 + nlen (penc k p)) then Err E_STRICT
+        else Ok (d, k, p))
+    end.
+  Proof.
+    intros Hd. unfold dec_Forked. assert (L : length d = 4%nat) by (unfold nlen in Hd; lia).
+    rewrite rd_read_fwd by (unfold rd_new; cbn [rd_i rd_max rd_inp]; rewrite nlen_app; lia).
+    cbn [bind rd_new rd_inp]. change (N.to_nat 4) with 4%nat.
+    now rewrite (firstn_app_exact d rest 4 L), (skipn_app_exact d rest 4 L).
+  Qed.
+
+  Lemma dec_Forked_split s w data v : dec_Forked P pdec penc s w data = Ok v -> exists d rest, data = d ++ rest /\ nlen d = 4.
+  Proof.
+    unfold dec_Forked. destruct (rd_read (rd_new data) 4) as [[d r1]| |] eqn:E; cbn [bind]; try discriminate. intros _.
+    apply rd_read_inv in E as (H1 & H2 & _). cbn [rd_new rd_inp] in *.
+    exists (firstn 4 data), (skipn 4 data). split; [now rewrite firstn_skipn|]. change 4%nat with (N.to_nat 4). now apply nlen_firstn.
+  Qed.
+
+  (* unknown digests are rejected by the four light-client wrappers, in every variant *)
+  Lemma Forked_unknown_rejected s w d rest : w <> WHistSummaries -> nlen d = 4 -> ~ known_digest d ->
+    dec_Forked P pdec penc s w (d ++ rest) = Err E_SELECTOR.
+  Proof. intros Hw Hd Hk. rewrite dec_Forked_digest by exact Hd. now rewrite (fork_select_unknown w d Hw Hk). Qed.
+
+  (* what is accepted carries a digest the wrapper knows and the payload type it selects *)
+  Lemma Forked_accepts_known s w data d k p : dec_Forked P pdec penc s w data = Ok (d, k, p) ->
+    nlen d = 4 /\ fork_select w d = Some k /\ (w = WHistSummaries \/ known_digest d).
+  Proof.
+    intros H. destruct (dec_Forked_split _ _ _ _ H) as (d0 & rest & -> & Hd). rewrite dec_Forked_digest in H by exact Hd.
+    destruct (fork_select w d0) as [k0|] eqn:Ef; [|discriminate].
+    destruct (pdec k0 rest) as [p0| |]; cbn [bind] in H; try discriminate.
+    destruct (_ && _); [discriminate|]. apply Ok_inj in H. injection H as <- <- <-.
+    split; [exact Hd|]. split; [exact Ef|]. now apply (fork_select_some w d0 k0).
+  Qed.
+
+  (* the library's payload codecs: decoding what was encoded gives the value back; a decoded value re-encodes to a
+     prefix of what was read (zrnt decoders read left to right and may stop early for fixed-size containers) *)
+  Hypothesis lib_roundtrip : forall k p, pdec k (penc k p) = Ok p.
+  Hypothesis lib_prefix : forall k r p, pdec k r = Ok p -> exists t, r = penc k p ++ t.
+
+  Lemma Forked_roundtrip s w d k p : nlen d = 4 -> fork_select w d = Some k ->
+    dec_Forked P pdec penc s w (d ++ penc k p) = Ok (d, k, p).
+  Proof using lib_roundtrip.
+    clear lib_prefix. intros Hd Hf. rewrite dec_Forked_digest by exact Hd. rewrite Hf, lib_roundtrip. cbn [bind].
+    rewrite nlen_app, Hd. replace (4 + nlen (penc k p) =? 4 + nlen (penc k p)) with true by lia. cbn [negb]. now rewrite andb_false_r.
+  Qed.
+
+  (* with the scope check the four light-client wrappers are canonical *)
+  Lemma Forked_canonical w : w <> WHistSummaries -> canonical (dec_Forked P pdec penc true w) (enc_Forked P penc).
+  Proof using lib_prefix.
+    clear lib_roundtrip. intros Hw b [[d k] p] H. destruct (dec_Forked_split _ _ _ _ H) as (d0 & rest & -> & Hd). rewrite dec_Forked_digest in H by exact Hd.
+    destruct (fork_select w d0) as [k0|]; [|discriminate].
+    destruct (pdec k0 rest) as [p0| |] eqn:Ep; cbn [bind] in H; try discriminate.
+    assert (Hc : (match w with WHistSummaries => false | _ => true end) = true) by (destruct w; congruence). rewrite Hc in H. cbn [andb] in H.
+    destruct (nlen (d0 ++ rest) =? 4 + nlen (penc k0 p0)) eqn:El; cbn [negb] in H; [|discriminate].
+    apply Ok_inj in H. injection H as <- <- <-. unfold enc_Forked. f_equal. f_equal.
+    destruct (lib_prefix _ _ _ Ep) as [t Ht]. rewrite Ht in El. rewrite !nlen_app, Hd in El.
+    assert (nlen t = 0) by lia. destruct t; [now rewrite Ht, app_nil_r|rewrite nlen_cons in H; lia].
+  Qed.
+
+  Lemma Forked_total s w data : (forall k r, pdec k r <> Panic) -> dec_Forked P pdec penc s w data <> Panic.
+  Proof using.
+    clear lib_roundtrip lib_prefix. intros Ht. unfold dec_Forked. destruct (rd_read (rd_new data) 4) as [[d r1]| |] eqn:E; cbn [bind]; try discriminate; [|now apply rd_read_total in E].
+    destruct (fork_select w d); [|discriminate]. destruct (pdec n (rd_inp r1)) eqn:Ep; cbn [bind]; try discriminate; [|now apply Ht in Ep].
+    destruct (_ && _); discriminate.
+  Qed.
+End ForkedProofs.
+
+(* as found (no scope check) canonicity fails as soon as a payload decoder stops before the end of its input *)
+Lemma Forked_as_found_canonicity_refuted :
+  exists (pdec : N -> bytes -> res bytes) (penc : N -> bytes -> bytes),
+    (forall k p, nlen p = 1 -> pdec k (penc k p) = Ok p) /\ (forall k r p, pdec k r = Ok p -> exists t, r = penc k p ++ t) /\
+    ~ canonical (dec_Forked bytes pdec penc false WBootstrap) (enc_Forked bytes penc).
+Proof.
+  exists (fun _ r => match r with [] => Err E_EOF | x :: _ => Ok [x] end), (fun _ p => p). split; [|split].
+  - intros k [|x [|? ?]] H; try (unfold nlen in H; simpl length in H; lia). reflexivity.
+  - intros k [|x r] p H; [discriminate|]. apply Ok_inj in H. subst p. exists r. reflexivity.
+  - intros H. specialize (H (D_Bellatrix ++ [x01; x02]) (D_Bellatrix, 0, [x01]) eq_refl). vm_compute in H. discriminate.
+Qed.
